@@ -21,7 +21,7 @@ H = SL.HOLE
 
 
 def plan(tier, seed):
-    groups = ['closures-for', 'closures-let', 'closure-store', 'partial', 'named', 'hof', 'hof-nested', 'sort', 'histories', 'focus-refs']
+    groups = ['closures-for', 'closures-let', 'closure-store', 'partial', 'named', 'hof', 'hof-nested', 'sort', 'histories', 'focus-refs', 'recursion', 'partial-hof']
     units = [{'group': g, 'ver': v} for g in groups for v in ('3.0', '3.1')]
     return {
         'units': units,
@@ -249,12 +249,97 @@ def run_unit(unit, tier, acc):
         prog = ('let', [('fact', ('func', ['f', 'n'], ('if', ('vcmp', 'le', V('n'), L(1)), L(1), ('arith', '*', V('n'), ('dyncall', V('f'), [V('f'), ('arith', '-', V('n'), L(1))])))))],
                 ('call', 'for-each', [S(1, 2, 3, 4), ('func', ['k'], ('dyncall', V('fact'), [V('fact'), V('k')]))]))
         check(ver, prog, {}, w, acc, g, 'recursion')
+    elif g == 'recursion':
+        run_recursion(ver, tier, w, acc, g)
+    elif g == 'partial-hof':
+        run_partial_hof(ver, tier, w, acc, g)
     elif g == 'sort':
         run_sort(ver, tier, w, acc, g)
     elif g == 'focus-refs':
         run_focus_refs(ver, tier, acc, g)
     elif g == 'histories':
         run_histories(ver, tier, w, acc, g)
+
+
+def run_recursion(ver, tier, w, acc, g):
+    """re-entrant calls of ONE function item: every activation has its own parameters, whatever the item has captured.
+    Enumerated: closure {empty, one variable, two variables} x where the parameter is read {before, after, both sides of} the inner call
+    x how the inner call is made {self application, through for-each, through fold-left, a second function item} x depth 0..3(4)."""
+    depth = 3 if tier == 'quick' else 4
+    for nclos in (0, 1, 2):
+        base = L(0) if nclos == 0 else V('k') if nclos == 1 else ('arith', '+', V('k'), V('j'))
+        for via in ('self', 'for-each', 'fold-left', 'other-item'):
+            if via == 'self':
+                inner = ('dyncall', V('g'), [V('g'), ('arith', '-', V('n'), L(1))])
+            elif via == 'for-each':
+                inner = ('call', 'for-each', [('arith', '-', V('n'), L(1)), ('func', ['m'], ('dyncall', V('g'), [V('g'), V('m')]))])
+            elif via == 'fold-left':
+                inner = ('call', 'fold-left', [('arith', '-', V('n'), L(1)), L(0), ('func', ['a', 'm'], ('arith', '+', V('a'), ('dyncall', V('g'), [V('g'), V('m')])))])
+            else:
+                inner = ('dyncall', V('h'), [V('g'), ('arith', '-', V('n'), L(1))])
+            for where in ('before', 'after', 'both', 'sequence'):
+                if where == 'before':
+                    body = ('arith', '+', V('n'), inner)
+                elif where == 'after':
+                    body = ('arith', '+', inner, V('n'))
+                elif where == 'both':
+                    body = ('arith', '+', ('arith', '+', V('n'), inner), ('arith', '*', V('n'), L(100)))
+                else:
+                    body = ('seq', [V('n'), inner, V('n')])
+                f = ('func', ['g', 'n'], ('if', ('vcmp', 'le', V('n'), L(0)), base, body))
+                for n in range(0, depth + 1):
+                    call = ('seq', [('dyncall', V('f'), [V('f'), L(n)]), ('dyncall', V('f'), [V('f'), L(1)])])
+                    prog = ('let', [('f', f)], call)
+                    if via == 'other-item':
+                        prog = ('let', [('h', ('func', ['g', 'n'], ('dyncall', V('g'), [V('g'), V('n')])))], prog)
+                    if nclos >= 1:
+                        prog = ('let', [('k', L(1000))], prog)
+                    if nclos == 2:
+                        prog = ('let', [('j', L(5000))], prog)
+                    check(ver, prog, {}, w, acc, g, 'closure%d/%s/%s' % (nclos, via, where))
+    # string accumulation (order of the parameter reads is visible in the result)
+    for nclos in (0, 1):
+        f = ('func', ['g', 'n'], ('if', ('vcmp', 'le', V('n'), L(0)), L('') if nclos == 0 else V('k'),
+                                   ('call', 'concat', [('dyncall', V('g'), [V('g'), ('arith', '-', V('n'), L(1))]), L('-'), ('call', 'string', [V('n')])])))
+        prog = ('let', [('f', f)], ('dyncall', V('f'), [V('f'), L(3)]))
+        if nclos:
+            prog = ('let', [('k', L('#'))], prog)
+        check(ver, prog, {}, w, acc, g, 'closure%d/self/string' % nclos)
+    acc.sample({'version': ver, 'program': SL.to_xpath(('let', [('k', L(1000))], ('let', [('f', ('func', ['g', 'n'], ('if', ('vcmp', 'le', V('n'), L(0)), V('k'),
+                ('arith', '+', ('dyncall', V('g'), [V('g'), ('arith', '-', V('n'), L(1))]), V('n')))))], ('dyncall', V('f'), [V('f'), L(3)]))))})
+
+
+def run_partial_hof(ver, tier, w, acc, g):
+    """function items given to a partially applied NAMED higher-order function: the item is passed as a value (its closure is the one of
+    its creation, a named reference is not executed), whatever the scope of the call and whatever was called before."""
+    seqs = [S(1, 2, 3), S(-1, 2), ('empty',), S(5)]
+    for sq in seqs:
+        # (a) an inline function with a free variable; the partial function is called where that variable is rebound
+        clos = ('func', ['x'], ('arith', '+', V('x'), V('k')))
+        clos2 = ('func', ['a', 'x'], ('arith', '+', ('arith', '+', V('a'), V('x')), V('k')))
+        pred = ('func', ['x'], ('gcmp', '>', V('x'), V('k')))
+        for pname, pargs, item in (('for-each', [sq, H], clos), ('for-each', [H, H], clos), ('filter', [sq, H], pred), ('fold-left', [sq, L(0), H], clos2),
+                                   ('fold-right', [sq, L(0), H], clos2), ('fold-left', [H, L(0), H], clos2), ('for-each-pair', [sq, sq, H], clos2)):
+            holes = [a for a in pargs if a == H]
+            args = [V('f')] if len(holes) == 1 else [sq, V('f')]
+            for rebind in (False, True):
+                callp = ('dyncall', V('p'), args)
+                if rebind:
+                    callp = ('let', [('k', L(100))], callp)
+                prog = ('let', [('k', L(10))], ('let', [('f', item)], ('let', [('p', ('partial', ('fname', pname), pargs))], ('seq', [callp, ('dyncall', V('p'), args)]))))
+                check(ver, prog, {}, w, acc, g, '%s/closure/%s' % (pname, 'rebound' if rebind else 'same-scope'))
+                # the partial function created inside the rebinding scope
+                prog = ('let', [('k', L(10))], ('let', [('f', item)], ('let', [('k', L(100))], ('let', [('p', ('partial', ('fname', pname), pargs))], ('dyncall', V('p'), args)))))
+                check(ver, prog, {}, w, acc, g, '%s/closure/created-in-rebound-scope' % pname)
+        # (b) a named reference that has already been called
+        for ref, a1 in ((('named', 'abs', 1), [L(-7)]), (('named', 'string', 1), [L(4)]), (('partial', ('fname', 'concat'), [L('<'), H]), [L('z')])):
+            for called_before in (0, 1, 2):
+                pre = [('dyncall', V('r'), a1)] * called_before
+                for pname, pargs in (('for-each', [sq, H]), ('for-each', [H, H])):
+                    args = [V('r')] if pargs[0] != H else [sq, V('r')]
+                    prog = ('let', [('r', ref)], ('seq', pre + [('dyncall', ('paren', ('partial', ('fname', pname), pargs)), args), ('dyncall', V('r'), a1)]))
+                    check(ver, prog, {}, w, acc, g, '%s/reference/called-%d-times-before' % (pname, called_before))
+    acc.sample({'version': ver, 'program': 'let $k := 10 return let $f := function($x) { $x + $k } return let $p := for-each((1, 2, 3), ?) return let $k := 100 return $p($f)'})
 
 
 def run_sort(ver, tier, w, acc, g):
@@ -312,6 +397,23 @@ def run_sort(ver, tier, w, acc, g):
                 acc.violation('C16|sort|hash-equal-items', '%s: %s with $s=%s' % (ver, rank, SB.show(sq)),
                               {'expected': SB.show(exp), 'observed': SB.show(got[1]) if got[0] == 'val' else repr(got)},
                               {'ver': ver, 'group': 'sort', 'src': rank, 's': [repr(x) for x in sq]})
+    # values of different numeric types with distinct magnitudes: the order is the numeric one whatever the types
+    mixed = [3, Fraction(5, 2), 1.0, 2.75, Fraction(1, 2), 1]
+    mixed = [x for x in mixed if x != 1.0 or True]
+    keyed = 'sort($s, (), function($v) { ($v * 2, $v)[1] })'
+    for k in range(0, min(n, 4) + 1):
+        for t in itertools.permutations([3, Fraction(5, 2), 1.0, 2.75, Fraction(1, 2)], k):
+            sq = list(t)
+            exp = sorted(sq, key=lambda v: Fraction(v))
+            for src in ('sort($s)', keyed, 'array:flatten(array:sort(array { $s }))'):
+                got = SB.run_impl(ver, src, {'s': sq}, w)
+                acc.ev()
+                acc.cmp()
+                acc.case(len(sq) > 1)
+                if not (got[0] == 'val' and SB.same_seq(exp, got[1])):
+                    acc.violation('C16|sort|mixed-numeric-types|%s' % ('keyed' if src == keyed else 'array' if 'array' in src else 'plain'), '%s: %s with $s=%s' % (ver, src, SB.show(sq)),
+                                  {'expected': SB.show(exp), 'observed': SB.show(got[1]) if got[0] == 'val' else repr(got)},
+                                  {'ver': ver, 'group': 'sort', 'src': src, 's': [repr(x) for x in sq]})
     # strings with the default and an explicit collation
     strs = ['b', 'a', 'B', 'ab']
     for k in range(0, min(n, 4) + 1):
